@@ -213,3 +213,172 @@ Theorem C16_lower_wait1_first_refuted :
   exists ins, traceB (mstepZ (lower wait1_first)) minitZ ins <> traceB (ref_step wait1_first) rinit ins.
 Proof. exact lower_wait1_first_refuted. Qed.
 Print Assumptions C16_lower_wait1_first_refuted.
+
+(** ** run-time limits / durations and debounce: all-parameter theorems about the AS-CODED models of
+    Models/TimingRt.v (cohdl/std/utility.py: debounce 630-658, continuous_counter 934-969 with a signal limit,
+    ToggleSignal 1004-1049 and ClockDivider 1093-1137 with signal durations) *)
+From Cohdl Require Import Base.Bits Models.TimingRt Models.TimingRtProofs.
+
+(** debounce, EVERY period >= 1, both initial levels, every input sequence of every length: as coded (register
+    [Unsigned.upto(period)] with wrapping +1/-1, start value period // 2) = specification machine *)
+Theorem C16_debounce_model_is_spec_all_periods : forall (period : Z) (initial : bool) ins, 1 <= period ->
+  traceB (dbm_step period) (dbm_init period initial) ins =
+  traceB (debounce_step period) [period / 2; zb initial] ins.
+Proof. exact dbm_refines. Qed.
+Print Assumptions C16_debounce_model_is_spec_all_periods.
+
+(** "starts at period/2": the start value fits the register for every period *)
+Theorem C16_debounce_starts_at_half_all_periods : forall (period : Z) (initial : bool), 1 <= period ->
+  dbm_init period initial = [period / 2; zb initial].
+Proof. exact dbm_init_eq. Qed.
+Print Assumptions C16_debounce_starts_at_half_all_periods.
+
+(** the counter never leaves 0..period on any input sequence: the register width suffices, no wrap ever happens *)
+Theorem C16_debounce_counter_bounded_all_periods : forall (period : Z) (initial : bool) ins, 1 <= period ->
+  exists cnt out, runB (dbm_step period) (dbm_init period initial) ins = [cnt; out] /\ 0 <= cnt <= period.
+Proof. exact dbm_counter_bounded. Qed.
+Print Assumptions C16_debounce_counter_bounded_all_periods.
+
+(** "output '1' exactly when the counter reaches the period and '0' when it reaches zero": in one clock from any
+    state with the counter in 0..period the output is set iff input '1' and counter = period, cleared iff input
+    '0' and counter = 0, unchanged otherwise; the counter moves one step towards the input, saturating *)
+Theorem C16_debounce_step_exact_all_periods : forall (period cnt out : Z) (i : value), 1 <= period -> 0 <= cnt <= period ->
+  let cnt' := if vbit i then Z.min (cnt + 1) period else Z.max (cnt - 1) 0 in
+  let out' := if vbit i && (cnt =? period) then 1
+              else if negb (vbit i) && (cnt =? 0) then 0 else out in
+  dbm_step period [cnt; out] [i] = ([cnt'; out'], Ok [obit (out' =? 1)]).
+Proof. exact dbm_step_exact. Qed.
+Print Assumptions C16_debounce_step_exact_all_periods.
+
+(** exact to the clock from power-up, every period: input held '1' - the output keeps its initial level for
+    exactly period - period/2 clocks and is '1' from the next clock on; input held '0' - exactly period/2 clocks *)
+Theorem C16_debounce_hold_high_exact_all_periods : forall (period : Z) (initial : bool) ins, 1 <= period ->
+  Forall (is_bit true) ins ->
+  traceB (dbm_step period) (dbm_init period initial) ins =
+  map (fun t => Ok [obit (if period - period / 2 <? Z.of_nat (S t) then true else initial)]) (seq 0 (length ins)).
+Proof. exact dbm_hold_high_exact. Qed.
+Print Assumptions C16_debounce_hold_high_exact_all_periods.
+
+Theorem C16_debounce_hold_low_exact_all_periods : forall (period : Z) (initial : bool) ins, 1 <= period ->
+  Forall (is_bit false) ins ->
+  traceB (dbm_step period) (dbm_init period initial) ins =
+  map (fun t => Ok [obit (if period / 2 <? Z.of_nat (S t) then false else initial)]) (seq 0 (length ins)).
+Proof. exact dbm_hold_low_exact. Qed.
+Print Assumptions C16_debounce_hold_low_exact_all_periods.
+
+(** non-vacuity: period 5 (3-bit register, start 2), input held '1': initial level for 3 clocks, then '1';
+    then held '0': 5 more clocks at '1' (counter 5 -> 0), then '0' *)
+Example C16_debounce_nonvacuous :
+  let h := [VL true] in let l := [VL false] in
+  (1 <= 5 /\ Forall (is_bit true) [h; h; h; h; h]) /\
+  dbm_init 5 false = [2; 0] /\
+  traceB (dbm_step 5) (dbm_init 5 false) [h; h; h; h; h; l; l; l; l; l; l; l] =
+  map (fun b => Ok [obit b]) [false; false; false; true; true; true; true; true; true; true; false; false].
+Proof. vm_compute. repeat split; try discriminate; repeat constructor. Qed.
+
+(** continuous_counter with a RUN-TIME limit (a w-bit port), every width w >= 1, every sequence of w-bit limits
+    of every length: as coded (counter type [Unsigned.upto(2**w - 1)], wrapping + 1, wrap on [>=]) = specification *)
+Theorem C16_counter_rt_model_is_spec_all_widths : forall (w : BinNums.N) ins, (1 <= w)%N -> Forall (lim_ok w) ins ->
+  traceB (ccrt_step w) [0] ins = traceB (counter_rt_step w) [0] ins.
+Proof. exact ccrt_refines. Qed.
+Print Assumptions C16_counter_rt_model_is_spec_all_widths.
+
+Theorem C16_counter_rt_never_overflows : forall (w : BinNums.N) ins, (1 <= w)%N -> Forall (lim_ok w) ins ->
+  exists c, runB (ccrt_step w) [0] ins = [c] /\ 0 <= c < pow2 w.
+Proof. exact ccrt_counter_bounded. Qed.
+Print Assumptions C16_counter_rt_never_overflows.
+
+(** one clock: below the limit exactly + 1, at or above the limit back to 0 *)
+Theorem C16_counter_rt_step_exact : forall (w : BinNums.N) (c : Z) (l : value), (1 <= w)%N -> 0 <= c < pow2 w ->
+  0 <= vnum l < pow2 w ->
+  let c' := if vnum l <=? c then 0 else c + 1 in
+  ccrt_step w [c] [l] = ([c'], Ok [ouns w c']).
+Proof. exact ccrt_step_exact. Qed.
+Print Assumptions C16_counter_rt_step_exact.
+
+(** "wraps within one step after the limit is lowered below the count": after ANY input prefix that left the
+    count at c, a clock with limit <= c yields 0 in that very clock and the counter is back in its power-up state *)
+Theorem C16_counter_rt_wraps_within_one_step : forall (w : BinNums.N) pre (l : value) rest (c : Z), (1 <= w)%N ->
+  runB (ccrt_step w) [0] pre = [c] -> vnum l <= c ->
+  traceB (ccrt_step w) [0] (pre ++ [l] :: rest) =
+  traceB (ccrt_step w) [0] pre ++ Ok [ouns w 0] :: traceB (ccrt_step w) [0] rest.
+Proof. exact ccrt_wraps_within_one_step. Qed.
+Print Assumptions C16_counter_rt_wraps_within_one_step.
+
+(** limit held at L: exact period L + 1, every 0 <= L < 2^w *)
+Theorem C16_counter_rt_period_exact_const_limit : forall (w : BinNums.N) (l : value) (n : nat), (1 <= w)%N ->
+  0 <= vnum l < pow2 w ->
+  traceB (ccrt_step w) [0] (repeat [l] n) =
+  map (fun t => Ok [ouns w (Z.of_nat (S t) mod (vnum l + 1))]) (seq 0 n).
+Proof. exact ccrt_const_limit_period. Qed.
+Print Assumptions C16_counter_rt_period_exact_const_limit.
+
+(** non-vacuity: 3-bit limit; count to 4 under limit 6, lower the limit to 2: 0 in the next clock, then 1, 2, 0 *)
+Example C16_counter_rt_nonvacuous :
+  let L x := [VV KUns 3 x] in
+  ((1 <= 3)%N /\ Forall (lim_ok 3) [L 6; L 6; L 6; L 6; L 2; L 2; L 2; L 2]) /\
+  (runB (ccrt_step 3) [0] [L 6; L 6; L 6; L 6] = [4] /\ vnum (VV KUns 3 2) <= 4) /\
+  traceB (ccrt_step 3) [0] [L 6; L 6; L 6; L 6; L 2; L 2; L 2; L 2] =
+  map (fun x => Ok [ouns 3 x]) [1; 2; 3; 4; 0; 1; 2; 0].
+Proof. vm_compute. repeat split; try discriminate; repeat constructor; discriminate. Qed.
+
+(** ToggleSignal with run-time durations (ports of wf and ws bits), all widths, both polarities, every sequence
+    of durations with first + second >= 1: as coded (concurrent [counter_end] in [Unsigned.upto(max_f+max_s-1)],
+    whose intermediate sum may overflow and wrap back) = specification machine *)
+Theorem C16_toggle_rt_model_is_spec_all_widths : forall (wf ws : BinNums.N) (ds fs : bool) ins,
+  (1 <= wf)%N -> (1 <= ws)%N -> Forall (dur_ok wf ws) ins ->
+  traceB (togglert_step wf ws ds fs) (togglert_init ds) ins = traceB (toggle_rt_step ds fs) [0; zb ds] ins.
+Proof. exact togglert_refines. Qed.
+Print Assumptions C16_toggle_rt_model_is_spec_all_widths.
+
+Theorem C16_toggle_rt_counter_end_exact : forall wf ws f g, (1 <= wf)%N -> (1 <= ws)%N ->
+  0 <= f < pow2 wf -> 0 <= g < pow2 ws -> 1 <= f + g ->
+  tgrt_end wf ws f g = f + g - 1 /\ f + g - 1 < pow2 (tgrt_end_width wf ws).
+Proof. exact tgrt_end_eq. Qed.
+Print Assumptions C16_toggle_rt_counter_end_exact.
+
+Example C16_toggle_rt_nonvacuous :
+  let D := [VV KUns 1 1; VV KUns 1 1] in
+  ((1 <= 1)%N /\ Forall (dur_ok 1 1) [D; D; D; D]) /\
+  tgrt_end_width 1 1 = 1%N /\ tgrt_end 1 1 1 1 = 1 /\
+  traceB (togglert_step 1 1 false true) (togglert_init false) [D; D; D; D] =
+  [Ok [obit false; obit false; obit false]; Ok [obit true; obit true; obit false];
+   Ok [obit false; obit false; obit true]; Ok [obit true; obit true; obit false]].
+Proof. vm_compute. repeat split; try discriminate; repeat constructor; discriminate. Qed.
+
+(** ClockDivider with a run-time duration (w-bit port), every width, every sequence of periods >= 1
+    (default_state = False as in the specification machine): as coded = specification machine *)
+Theorem C16_divider_rt_model_is_spec_all_widths_partial : forall (w : BinNums.N) ins, (1 <= w)%N -> Forall (per_ok w) ins ->
+  traceB (dividerrt_step w false) (dividerrt_init false) ins = traceB divider_rt_step [0; 0] ins.
+Proof. exact dividerrt_refines. Qed.
+Print Assumptions C16_divider_rt_model_is_spec_all_widths_partial.
+(* partial: default_state = True is not covered (the specification machine [divider_rt_step] of StdSpecs.v has
+   no default_state parameter); full statement: forall ds, traceB (dividerrt_step w ds) (dividerrt_init ds) ins
+   = traceB (divider_rt_step generalised by ds) [0; zb ds] ins *)
+
+Example C16_divider_rt_nonvacuous :
+  let P x := [VV KUns 2 x] in
+  ((1 <= 2)%N /\ Forall (per_ok 2) [P 3; P 3; P 3; P 1; P 1]) /\
+  traceB (dividerrt_step 2 false) (dividerrt_init false) [P 3; P 3; P 3; P 1; P 1] =
+  [Ok [obit false; obit false]; Ok [obit false; obit false]; Ok [obit true; obit true];
+   Ok [obit true; obit false]; Ok [obit true; obit false]].
+Proof. vm_compute. repeat split; try discriminate; repeat constructor; discriminate. Qed.
+
+(** tie to the code, every configuration at once (the computed hypotheses are what every generated case file of
+    harness/c16.py proves for its parsed design) *)
+Theorem C16_debounce_code_matches_model_all_periods : forall d mid alphabet fuel (period : Z) (initial : bool), 1 <= period ->
+  conc_all_ok (auto_Ts d) d = true ->
+  is_ok (rcheck_s d mid (debounce_step period) alphabet (fun _ _ => true) fuel [period / 2; zb initial]) = true ->
+  forall ins, Forall (fun x => In x alphabet) ins ->
+    traceA (sstep d mid) (power_up_s d) ins = traceB (dbm_step period) (dbm_init period initial) ins.
+Proof. exact dbm_code_tie. Qed.
+Print Assumptions C16_debounce_code_matches_model_all_periods.
+
+Theorem C16_counter_rt_code_matches_model_all_widths : forall d mid alphabet fuel (w : BinNums.N), (1 <= w)%N ->
+  Forall (lim_ok w) alphabet ->
+  conc_all_ok (auto_Ts d) d = true ->
+  is_ok (rcheck_s d mid (counter_rt_step w) alphabet (fun _ _ => true) fuel [0]) = true ->
+  forall ins, Forall (fun x => In x alphabet) ins ->
+    traceA (sstep d mid) (power_up_s d) ins = traceB (ccrt_step w) [0] ins.
+Proof. exact ccrt_code_tie. Qed.
+Print Assumptions C16_counter_rt_code_matches_model_all_widths.
